@@ -30,6 +30,9 @@ func (c *octx) twins(t *testing.T, cfg simrt.Config) *eng.Violation {
 		}
 		return nil
 	case "C10":
+		if hasNested(c.sc) {
+			return nil // a run nested inside a callback names a flow object: no flattened twin
+		}
 		flat := flatten(c.sc)
 		if flat == nil {
 			return nil
